@@ -110,7 +110,7 @@ var pkgClauseRe = regexp.MustCompile(`^package\s+(\w+)`)
 
 var clauseKeywords = map[string]bool{"requires": true, "ensures": true, "modifies": true, "pure": true, "assumed": true,
 	"functype": true, "loop": true, "results": true, "params": true, "maypanic": true, "wrapping": true, "assert": true, "use": true, "allocates": true,
-	"nonblocking": true, "ghostset": true, "callsonce": true, "before": true, "dead": true, "func": true, "iface": true, "lemma": true, "import": true, "trustframe": true, "refines": true, "assuming": true, "typefact": true, "chanvalue": true, "initfact": true, "axiom": true, "ghostfield": true, "uninterp": true, "const": true}
+	"nonblocking": true, "ghostset": true, "callsonce": true, "before": true, "dead": true, "func": true, "iface": true, "lemma": true, "spawn": true, "import": true, "trustframe": true, "refines": true, "assuming": true, "typefact": true, "chanvalue": true, "initfact": true, "axiom": true, "ghostfield": true, "uninterp": true, "const": true}
 
 // loadContractFile parses one file. defaultPkg is used for keys without package qualifier
 // (the Go package name of the file for in-repo contract files).
@@ -324,7 +324,7 @@ func (ct *ContractTable) loadContractFile(path string) error {
 				return fmt.Errorf("%s:%d: 'pure' outside contract", path, rl.line)
 			}
 			cur.Pure = true
-		case "func", "iface", "lemma":
+		case "func", "iface", "lemma", "spawn":
 			key := rest
 			c := &Contract{Kind: kw, FuncTypes: map[string]string{}, Loops: map[int][]Clause{}, Steps: map[int][]Clause{}, File: path, Line: rl.line, Pkg: defaultPkg}
 			if kw == "lemma" {
@@ -352,6 +352,13 @@ func (ct *ContractTable) loadContractFile(path string) error {
 				// allow a trailing signature-like remainder after the key: only first token is the key
 				key = strings.Fields(rest)[0]
 				c.Key = qualify(key)
+				if kw == "spawn" {
+					// "spawn K": the ghost effect of a `go K(...)` statement on the spawning function's state
+					// (a bookkeeping model, applied where such a statement is executed; assumed by nature)
+					c.Kind = "func"
+					c.Assumed = true
+					c.Key = "spawn:" + c.Key
+				}
 			}
 			if _, dup := ct.C[c.Key]; dup {
 				return fmt.Errorf("%s:%d: duplicate contract for %s", path, rl.line, c.Key)
